@@ -688,15 +688,18 @@ class Builder:
         self.stmt_budget -= 1
         opts = [(22, 'probe'), (14, 'decl'), (18, 'assign'), (12, 'if')]
         if 'arrays' in self.F:
-            opts.append((9, 'decl_array'))
+            w = self.size.get('decl_array_weight', 9)
+            if self.in_try and self.flavor == '@':
+                w = self.size.get('try_decl_array_weight', w)
+            opts.append((w, 'decl_array'))
         if 'loops' in self.F and self.loop_depth < self.size['loop_nest']:
             opts += [(8, 'for'), (4, 'while')]
         if self.loop_depth > 0:
-            opts.append((4, 'break_continue'))
+            opts.append((self.size.get('break_weight', 4), 'break_continue'))
         if 'calls' in self.F:
             opts.append((8, 'call'))
         if self.cur_func is not None:
-            opts.append((3 if self.cur_func.name != '@is_you' else 1, 'early_return'))
+            opts.append((self.size.get('return_weight', 3) if self.cur_func.name != '@is_you' else 1, 'early_return'))
         if 'terminal' in self.F:
             opts.append((1, 'terminal'))
         if 'tt' in self.F:
@@ -760,7 +763,7 @@ class Builder:
             body = self.block(self.integer(1, 2), tail=tail)
             return [Preempt(body)]
         if k == 'defeat':
-            which = self.weighted([(3, 'is_defeat'), (5, 'truth'), (4, 'call')])
+            which = self.weighted([(3, 'is_defeat'), (5, 'truth'), (self.size.get('defeat_call_weight', 4), 'call')])
             if which == 'call':
                 fs = [f for ret in (EMPTY, INT, BOOL, BYTE) for f in self.callable_funcs(ret) if f.flavor == '!']
                 if fs:
@@ -1101,6 +1104,27 @@ class Builder:
                 self.gen_overload_set()
             else:
                 self.gen_func(flavor)
+        if 'tt' in self.F and 'calls' in self.F and 'arrays' in self.F and self.chance(60):
+            # defeat helper that holds a live stack array (and possibly calls on) at the moment defeat is reached
+            name = '!' + self.fresh('ad')
+            el = self.pick([INT, BYTE, BOOL])
+            aname = self.fresh('a')
+            n = self.integer(1, 5)
+            lit_el = {INT: lambda: self.int_lit(), BYTE: lambda: self.byte_lit(), BOOL: lambda: Lit('bool', self.chance(50), None, t=BOOL)}[el]
+            xv = Var('x', t=INT)
+            first = {INT: xv, BYTE: Is(xv, BYTE, t=BYTE), BOOL: Bin('>', xv, Lit('int', 1, None, t=INT), t=BOOL)}[el]
+            aty = arr(el, False)
+            body = [ExprStmt(Call('write', [Lit('string', ('<%s>' % name[1:]).encode(), None, t=STRING)], t=EMPTY)),
+                    Decl(aty, True, aname, ArrLit([first] + [lit_el() for _ in range(n)], t=aty))]
+            inner = [f for f in self.funcs if f.flavor == '!' and f.ret == EMPTY and len(f.params) == 0]
+            if inner and self.chance(40):
+                body.append(ExprStmt(Call(self.pick(inner).name, [], t=EMPTY)))
+            body.append(ExprStmt(Call('!truth_is_defeat', [Bin(self.pick(['>', '<', '!=']), xv, Lit('int', self.integer(0, 3), None, t=INT), t=BOOL)], t=EMPTY)))
+            shown = Index(Var(aname, t=aty), Lit('int', 0, None, t=INT), t=el)
+            body.append(ExprStmt(Call('write', [Is(shown, INT, t=INT) if el == BYTE else shown], t=EMPTY)))
+            info = FuncInfo(name, '!', EMPTY, [Param(INT, False, 'x')])
+            self.funcs.append(info)
+            self.func_nodes.append(Func(EMPTY, name, [Param(INT, False, 'x')], Block(body)))
         if 'tt' in self.F and 'calls' in self.F:
             if not any(f.flavor == '!' for f in self.funcs):
                 self.gen_func('!')
